@@ -214,7 +214,7 @@ STrans(op, x) ==
            [] op = "log" -> IF r = ROne THEN CZero ELSE CBad
            [] op = "log2" -> IF r = ROne THEN CZero ELSE IF r = RInt(2) THEN COne ELSE IF r = RInt(4) THEN CInt(2) ELSE IF r = Norm(1, 2) THEN CInt(-1) ELSE CBad
            [] op = "log10" -> IF r = ROne THEN CZero ELSE IF r = RInt(10) THEN COne ELSE CBad
-           [] op = "sinc" -> IF r = RZero THEN COne ELSE IF r[2] = 1 THEN CZero ELSE CBad
+           [] op = "sinc" -> IF r = RZero THEN COne ELSE CBad        \* (sin(pi n) / (pi n) is 4e-17, not 0, in floating point)
 SSign(x) == IF CIsBad(x) THEN CBad
             ELSE IF x[2] = RZero THEN CInt(RSgn(x[1]))
             ELSE LET m == CAbsR(x) IN IF IsBad(m) THEN CBad ELSE CMk(RDiv(x[1], m), RDiv(x[2], m))
@@ -633,7 +633,9 @@ NInterp(x, xp, fp) ==
     ELSE IF xp.sh # fp.sh THEN Rej("interp:length")
     \* an empty table is refused -- unless there is nothing to interpolate, which NumPy lets pass (accident)
     ELSE IF xp.sh[1] = 0 THEN (IF NSize(x) = 0 THEN NoDemand("interp:empty-x") ELSE Rej("interp:empty"))
-    ELSE IF x.dt = "c" \/ xp.dt = "c" \/ fp.dt = "c" THEN TypeErr("interp:complex")
+    ELSE IF xp.dt = "c" THEN TypeErr("interp:complex")
+    \* complex x: TypeError or silently truncated, depending on how NumPy converts it; complex fp: separate code path -- not modelled
+    ELSE IF x.dt = "c" \/ fp.dt = "c" THEN NoDemand("interp:complex")
     ELSE LET n == xp.sh[1]
              X(j) == xp.v[j][1]
              F(j) == fp.v[j][1]
